@@ -330,6 +330,9 @@ func c03Run(c *Ctx) {
 
 func c03Handwritten() []string {
 	return []string{
+		// inside a body the function's own name is bound afresh in every activation: assigning to it touches that activation only
+		Lines(Fun("fib", "n", " "+If("n < 2", "{ fib = n; "+Ret("fib")+" }")+" "+Ret("fib(n - 1) + fib(n - 2)")+" "), Print("fib(6)"), Print("fib(7)"), Fun("label", "x", " "+Print("label")+" label = x; "+Ret("label")+" "), Print(`label("a")`), Print(`label("b")`),
+			Fun("walk", "n", " "+If("n == 0", "{ walk = \"bottom\"; "+Ret("walk")+" }")+" "+Var("below", "walk(n - 1)")+" "+Print("walk")+" "+Ret("below")+" "), Print("walk(2)"), Fun("fact", "n", " "+If("n < 2", "{ "+Ret("1")+" }")+" "+Ret("n * fact(n - 1)")+" "), Var("g", "fact"), "fact = nil;", Print("g(4)")),
 		// a function declared inside a branch / loop body of a function, escaping, called after its creator returned (and after
 		// other calls): it still reads and assigns the creator's parameter and locals, not globals of the same name
 		Lines(Var("n", `"global n"`), Var("loc", `"global loc"`), Fun("mk", "n", " "+Var("loc", "n * 2")+" "+If("n > 0", "{ "+Fun("get", "", " loc = loc + 1; "+Ret(`n + ":" + loc`)+" ")+" "+Ret("get")+" }")+" "+Ret("nil")+" "), Var("g1", "mk(1)"), Var("g5", "mk(5)"), Fun("other", "n", " "+Var("loc", "0")+" "+Ret("n + loc")+" "), "other(100);", Print("g1()"), Print("g5()"), Print("g1()"), Print("n"), Print("loc")),
